@@ -153,20 +153,24 @@ def _free_numeric_params(vc):
     return [out[k] for k in sorted(out)]
 
 
-def _model_search(vc, solver, tries=60, per_ms=300):
+def _model_search(vc, solver, tries=160, per_ms=250):
     import random
 
     params = _free_numeric_params(vc)
     if not params:
         return None
     rng = random.Random(12345)
-    ints = [0, 1, 2, 3, 4, 5, 7, 8, 9, 10, 16, 100]
+    ints = [0, 1, 2, 3, 4, 5, 6, 7, 8, 9, 10, 16, 32, 64, 100, 128]
     reals = ["0", "1", "2", "3", "1/2", "3/2", "5/2", "7/2", "1/4", "10", "100", "950", "1/10"]
     solver.set("timeout", per_ms)
-    for _ in range(tries):
+    t_end = time.time() + 45
+    for k in range(tries):
+        if time.time() > t_end:
+            break
         solver.push()
+        skip = (0.15, 0.35, 0.6, 0.8)[k % 4]
         for p in params:
-            if rng.random() < 0.25:
+            if rng.random() < skip:
                 continue
             if z3.is_int(p):
                 solver.add(p == rng.choice(ints))
